@@ -25,7 +25,7 @@ ASSUMPTIONS = ["zeta strictly inside (0,1); breakpoint intervals narrower than 1
                "multi-rank behaviour observed over vlib.fakempi (thread communicator), equal partitions",
                "total weight > 0 (a population with zero total weight has no defined comb)"]
 REQUIRED_COUNTERS = {"comb_calls": 500, "rank_runs": 10, "distinct_arrival_orders": 4, "contract_comb_postcondition": 10, "mpi_driver_reconfigurations": 3}
-PATTERNS = ["ones", "random", "zeros", "signs", "decades", "dominant", "single", "tiny", "ties"]
+PATTERNS = ["ones", "random", "zeros", "signs", "decades", "dominant", "single", "tiny", "ties", "nearly-uniform"]
 
 
 def make_weights(rng, n, pattern):
@@ -52,6 +52,10 @@ def make_weights(rng, n, pattern):
         w = rng.uniform(1e-12, 1e-10, size=n)
     elif pattern == "ties":
         w = rng.choice([0.5, 1.0, 1.5], size=n)
+    elif pattern == "nearly-uniform":
+        # what a population looks like right after a local reconfiguration plus a little drift: the comb is the identity except for
+        # offsets within ~1e-6 of 0 or 1 (which the zeta list and the breakpoint integration both visit)
+        w = 1.3 * (1.0 + 1e-6 * rng.uniform(-1, 1, size=n))
     return w
 
 
